@@ -24,6 +24,7 @@ import (
 	"time"
 
 	"github.com/google/pprof/internal/binutils"
+	"github.com/google/pprof/internal/measurement"
 	"github.com/google/pprof/internal/plugin"
 	"github.com/google/pprof/internal/zzverif/vdrv"
 	"github.com/google/pprof/internal/zzverif/vlib"
@@ -57,7 +58,7 @@ func theProfile() *profile.Profile {
 	lh := vlib.ALoc{Map: m, Rel: 5, Lines: []vlib.ALine{{Fn: h, Line: 30}}}
 	lgf := vlib.ALoc{Map: m, Rel: 6, Lines: []vlib.ALine{{Fn: g, Line: 21}, {Fn: f, Line: 11}}}
 	k := func(v string) []vlib.ASLab { return []vlib.ASLab{{K: "k", V: []string{v}}} }
-	ap := vlib.AProf{ST: []vlib.AVT{{T: "s1", U: "u1"}, {T: "s2", U: "u2"}}, Samples: []vlib.ASample{
+	ap := vlib.AProf{ST: []vlib.AVT{{T: "s1", U: "nanoseconds"}, {T: "s2", U: "bytes"}}, Samples: []vlib.ASample{
 		{Locs: []vlib.ALoc{lh, lg, lf}, Vals: []int64{1, 10}, Lab: k("x")},
 		{Locs: []vlib.ALoc{lg, lf}, Vals: []int64{2, 5}, Lab: k("y")},
 		{Locs: []vlib.ALoc{lh, lgf}, Vals: []int64{3, 7}},
@@ -137,7 +138,7 @@ var refErr = map[string]bool{}
 // reference would share whatever the process has cached and agree with a stale answer)
 func needsFreshProcess(lines []string) bool {
 	for _, l := range lines {
-		if strings.HasPrefix(l, "source_path=") || strings.HasPrefix(l, "trim_path=") || strings.HasPrefix(l, "intel_syntax=") {
+		if strings.HasPrefix(l, "source_path=") || strings.HasPrefix(l, "trim_path=") || strings.HasPrefix(l, "intel_syntax=") || strings.HasPrefix(l, "prune_from=") {
 			return true
 		}
 	}
@@ -380,6 +381,14 @@ func realWriterPart() {
 	}
 }
 
+var unitsAtStart = unitProbe()
+
+// unitProbe formats a few values through the measurement package: the tables behind it are process-wide
+func unitProbe() string {
+	return strings.Join([]string{measurement.Label(3<<20, "bytes"), measurement.Label(2048, "kb"), measurement.Label(1500, "ms"), measurement.Label(90, "s"),
+		measurement.Label(7, "count"), measurement.ScaledLabel(5000000, "ns", "auto"), measurement.ScaledLabel(1<<30, "B", "minimum")}, " | ")
+}
+
 func lastLine(c *scase) string {
 	for i := len(c.Lines) - 1; i >= 0; i-- {
 		if c.Lines[i].Kind == "bad" || c.Lines[i].Kind == "noop" {
@@ -400,7 +409,7 @@ func clip(b []byte) string {
 
 var requests = []string{"/top", "/top?f=g", "/top?i=h", "/peek?f=g", "/flamegraph", "/flamegraph?h=f", "/top?si=s1", "/top?g=lines", "/top?n=1&s=cum",
 	"/source?f=f", "/top?tf=k:x", "/top?th=k", "/top?rel=t&f=h", "/flamegraph?sf=g", "/top?tagroot=k", "/download",
-	"/flamegraph?g=lines", "/flamegraph?noinlines=t", "/flamegraph?g=files", "/top?g=files&s=cum",
+	"/flamegraph?si=s1", "/flamegraph?g=lines", "/flamegraph?noinlines=t", "/flamegraph?g=files", "/top?g=files&s=cum",
 	// C09: query strings that must be answered with an error page, not a crash
 	"/top?n=zz", "/top?f=(", "/peek?f=(", "/top?si=nosuch", "/top?g=bogus", "/top?nf=1e999", "/flamegraph?i=(", "/top?tf=99999999999999999999:", "/source?f=", "/disasm?f=f",
 	"/top?%zz", "/top?n=-5", "/top?unit=parsecs", "/nosuchpage"}
@@ -625,6 +634,10 @@ func main() {
 	}
 	realWriterPart()
 	webPart(run.N)
+	// what the process knows about units is no business of a request: after every request made, values print as before
+	if now := unitProbe(); now != unitsAtStart {
+		run.Violate("web", "process-wide-units-changed", fmt.Sprintf("labels for the same values before any request:\n%s\nafter the requests of this run:\n%s", unitsAtStart, now), nil, nil)
+	}
 	settingsUsable()
 	keys := make([]string, 0)
 	for k := range refCache {
